@@ -183,6 +183,10 @@ pub fn run(thorough: bool) -> Vec<Part> {
             "read_carried_bytes_past_a_completed_request", "empty_read_while_partial_line_buffered",
             "read_filled_space_after_carry(line_crossed_buffer_edge)", "read_completed_two_or_more_requests"]);
         part.set("alphabet_pieces", json!(cfg.pieces.len()));
+        {
+            let tl = crate::connx::stateless_sequences(&cfg, if thorough { 4 } else { 3 }, workers());
+            crate::connx::record_stateless(&mut part, "alphabet piece sequences", &tl);
+        }
         // Independent, stateless cross-check (no state digest involved anywhere): concrete
         // streams, every segmentation with at most 2 (thorough: 3) cuts, with and without
         // empty reads before each segment; the observation sequence must equal the greedy
